@@ -163,8 +163,6 @@ def rule_determine(ctx, vmod):
         classes = [("plain", base, 0, (1, 1), base), ("dotted", base, 1, (1, 1), o_dots(base, 1))]
         classes += [(name, base, 0, rat, base * Fraction(rat[0], rat[1])) for name, rat in RATIOS.items()]
         for label, b, d, rat, centre in classes:
-            if centre > 128 or centre < Fraction(1, 4):
-                continue  # outside the vocabulary: tuplets / dots of the extreme bases that leave the table
             x = FInt(centre * Fraction(99, 100), centre * Fraction(101, 100), "value")
 
             def mk(ch):
